@@ -135,6 +135,44 @@ theorem nonclone_fields_zero (d : ExtDef) (hd : WellFormed d) (m : Method) (x : 
   rw [val_map d hd _ f hf]
   simp [mem_fieldsToClone, hc]
 
+/-! ## field parsing (`createField`) -/
+
+/-- **An anonymous (embedded) extra field is parsed exactly like a named one**: nothing in
+`createField` depends on the field being embedded; it goes by the name of its type. -/
+theorem createField_ignores_embedding (r : RawField) (b : Bool) :
+    createField { r with embedded := b } = createField r := rfl
+
+/-- print name: the tag's name, `_` standing for the field's own name (for an embedded field the
+name of its type); flags: the options listed in the tag; no tag: neither printed nor cloned -/
+theorem createField_spec (r : RawField) :
+    (createField r).name = r.name ∧ (createField r).zero = r.zero ∧
+    (∀ n, r.tagName = some n →
+      (createField r).printAs = (if n = ['_'] then r.name else n) ∧
+      ((createField r).print = true ↔ "print".toList ∈ r.opts) ∧
+      ((createField r).clone = true ↔ "clone".toList ∈ r.opts)) ∧
+    (r.tagName = none → (createField r).print = false ∧ (createField r).clone = false) := by
+  unfold createField
+  cases h : r.tagName with
+  | none => simp
+  | some n => simp
+
+/-- a tagged field of the struct — embedded or not — with the `clone` option is copied from the
+factory by every generated method, and with the `print` option is listed by `Error()` -/
+theorem parsed_field_cloned_and_printed (rs : List RawField) (hd : WellFormed (parseFields rs))
+    (r : RawField) (hr : r ∈ rs) (n : Str) (ht : r.tagName = some n) (m : Method) (x : X) (c : Call) :
+    ("clone".toList ∈ r.opts →
+      (extMethod (parseFields rs) (tmplRow m) x c).val r.name = x.val r.name) ∧
+    ("print".toList ∈ r.opts → createField r ∈ fieldsToPrint (parseFields rs)) := by
+  have hm : createField r ∈ parseFields rs := List.mem_map_of_mem hr
+  obtain ⟨hn, _, ht', _⟩ := createField_spec r
+  obtain ⟨_, hp, hc⟩ := ht' n ht
+  constructor
+  · intro ho
+    have := clone_fields_copied (parseFields rs) hd m x c (createField r) hm (hc.mpr ho)
+    rw [hn] at this; exact this
+  · intro ho
+    exact (mem_fieldsToPrint _ _).mpr ⟨hm, hp.mpr ho⟩
+
 /-! ## `Error()` -/
 
 /-- **`Error()` is the base rendering with the print fields inserted between source and message:**
@@ -184,6 +222,12 @@ theorem print_fields_exact (d : ExtDef) :
 def legacyTmplSrcS : Row :=
   { sig := [.string], stack := .defaultStack, dtag := .empty, src := .empty, msg := .empty, err := .nil,
     shortCircuit := false }
+
+/-- an embedded `Tenant` field renamed `tenant`, print+clone, as the parser sees it -/
+def exRaw : RawField := ⟨"Tenant".toList, true, some "tenant".toList, ["print".toList, "clone".toList], "{ }".toList⟩
+
+example : createField exRaw = ⟨"Tenant".toList, "tenant".toList, true, true, "{ }".toList⟩ ∧
+    createField { exRaw with tagName := some ['_'] } = ⟨"Tenant".toList, "Tenant".toList, true, true, "{ }".toList⟩ := by decide
 
 def exDef : ExtDef :=
   [⟨"Status".toList, "Status".toList, true, true, "0".toList⟩,
